@@ -618,6 +618,22 @@ open NmlVerif.Geom
 FOOTER = "end NmlVerif.Gen.Geom\n"
 
 
+RET_TYPE = {("Cell", "get_actual_proximal"): "pt"}
+
+
+def stub(key):
+    cls, name = key
+    if cls == "Cell":
+        params = "(get_segment : Nat → Except Err (Seg α)) (get_actual_proximal : Nat → Except Err (Pt α)) (segment_id : Nat)"
+    elif cls == "Point3DWithDiam":
+        params = "(self : Pt α) (other_3d_point : Pt α)"
+    else:
+        params = "(self : Seg α)"
+    return ("/-- `%s.%s` — NOT TRANSLATED (see the translator gap reported for this run); stub so that the rest compiles -/\n"
+            "def %s.%s {α : Type} [GeomOps α] %s :\n    Except Err (%s) :=\n  .error ⟨\"Untranslated\", \"%s.%s\"⟩\n"
+            % (cls, name, cls, name, params, LEAN_TY[RET_TYPE.get(key, "num")], cls, name))
+
+
 def translate_repo(repo):
     """returns (lean_text, gaps)"""
     gaps = []
@@ -651,6 +667,10 @@ def translate_repo(repo):
             chunks.append("/-- `%s.%s` -/\n%s" % (key[0], key[1], texts["nml.py"]))
         elif len(texts) == 1:
             chunks.append("/-- `%s.%s` (only one source translated) -/\n%s" % (key[0], key[1], list(texts.values())[0]))
+        else:
+            # neither source could be translated (the gap is reported above): emit a stub with the right signature so that
+            # the OTHER functions still compile, the driver still runs and only the obligations about this function break
+            chunks.append(stub(key))
     return HEADER + "\n".join(chunks) + "\n" + FOOTER, gaps
 
 
